@@ -86,7 +86,7 @@ fn run(e: &Engine) {
             use crate::rec::ErrSpec;
             for &sre in sres_ref.iter() {
                 for pattern in 0u8..32 {
-                    let one = |u: U| Step { events: vec![], mav: false, tst: None, units: vec![(u, 0)] };
+                    let one = |u: U| Step { events: vec![], mav: false, tst: None, units: vec![(u, 0)], stored: None };
                     let mut steps = Vec::new();
                     if pattern & 1 != 0 {
                         steps.push(one(U::Opc));
@@ -96,8 +96,8 @@ fn run(e: &Engine) {
                             steps.push(one(U::Fail(ErrSpec { code, custom: false, extended: false })));
                         }
                     }
-                    steps.push(Step { events: vec![], mav: false, tst: None, units: vec![(U::Ese(ese as i32), 0), (U::Sre(sre), 0)] });
-                    steps.push(Step { events: vec![], mav: (sre as u8 ^ pattern) & 1 == 1, tst: None, units: vec![(U::StbQ, 0)] });
+                    steps.push(Step { events: vec![], mav: false, tst: None, units: vec![(U::Ese(ese as i32), 0), (U::Sre(sre), 0)], stored: None });
+                    steps.push(Step { events: vec![], mav: (sre as u8 ^ pattern) & 1 == 1, tst: None, units: vec![(U::StbQ, 0)], stored: None });
                     steps.push(one(U::EsrQ));
                     steps.push(one(U::StbQ));
                     if !f(History { bounded: pattern & 2 != 0, steps }) {
